@@ -253,6 +253,42 @@ def c05_b(ctx: Ctx):
                                     "document's entry in the global buffer keeps the old keys, so inside signac.buffered() a later write brings the removed keys back and flushes them", construct=k))
             else:
                 out.append(ctx.ok(R, g, c, f"{canon(c)[:40]} is a synchronised document operation", construct=k))
+    # once the directory tree was removed, remove() does not return normally with the old document handle still attached: every continuation of the successful
+    # rmtree - including the ones that run through a handler that swallows an error of the clean-up itself - forgets the handle (or finds none)
+    rms = [n for n in cfg.stmt_nodes() if n.kind == "stmt" and any(isinstance(c, ast.Call) and common.ext_name(ctx, rem, c) == "shutil.rmtree" for sub in _own(n.ast) for c in walk_no_nested(sub))]
+    kd = rem.qual + "|handle-dropped-after-rmtree"
+    if rms and drops:
+        def no_handle(facts):
+            for (t, pol) in facts:
+                t = t.replace(" ", "")
+                if (t == "self._documentisNone" and pol) or (t in ("self._documentisnotNone", "self._document") and not pol):
+                    return True
+            return False
+        dropped = {d.id for d in drops}
+        bad = None
+        for rn in rms:
+            todo = [(b, [rn.id, b]) for (b, kk, f) in cfg.succ[rn.id] if kk == "n" and not no_handle(f)]
+            seen = set()
+            while todo and bad is None:
+                n, pth = todo.pop()
+                if n in seen or n in dropped:
+                    continue
+                seen.add(n)
+                if n == cfg.exit:
+                    bad = (rn, pth)
+                    break
+                for (b, kk, f) in cfg.succ[n]:
+                    if kk in "nx" and not no_handle(f):
+                        todo.append((b, pth + [b]))
+        if bad is None:
+            out.append(ctx.ok(R, rem, rms[0].ast, "after the tree is removed every normal return of remove() has dropped the document handle", construct=kd))
+        else:
+            out.append(ctx.viol(R, rem, bad[0].ast, "remove() can return normally after the directory tree was deleted with the old document handle still attached (an error of the clean-up, e.g. the "
+                                "ENOENT that clearing the now file-less document raises, is swallowed by a handler that also skips `self._document = None`): the next write through the "
+                                "same handle goes to the stale document object and fails with FileNotFoundError / BufferedError instead of re-creating the job", construct=kd,
+                                witness=cfg.describe_path(bad[1])))
+    elif not rms:
+        out.append(ctx.inc(R, rem, rem.node, "no shutil.rmtree statement in remove()", construct=kd))
     for d in drops:
         w = cfg.must_pass_before(d.id, clears, kinds="n")
         if w is None and clears:
@@ -346,4 +382,14 @@ def c05_f(ctx: Ctx):
     return out
 
 
-RULES = [c05_a, c05_b, c05_c, c05_d, c05_e, c05_f]
+@rule("C05-g")
+def c05_g(ctx: Ctx):
+    """The document getter may skip init() only for a directory that exists: `_directory_known` is asserted only where existence was established (from C02-j)."""
+    from .c02 import c02_j
+    res = c02_j(ctx)
+    for r in res:
+        r.rule = "C05-g"
+    return res
+
+
+RULES = [c05_a, c05_b, c05_c, c05_d, c05_e, c05_f, c05_g]
